@@ -6,8 +6,10 @@ From GoPdf.C04 Require Import XRef XRefText XRefTextProofs Extent.
 Import ListNotations.
 Open Scope N_scope.
 
-Definition no_trailing_eol (body : bytes) : Prop :=
-  match rev body with b :: _ => is_eol b = false | [] => True end.
+(* the one case that cannot be decided without /Length: data ending in CR, followed by a
+   bare LF as the end-of-line marker, reads as data + CR LF marker *)
+Definition no_cr_before_lf (body e1 : bytes) : Prop :=
+  e1 = [LF] -> match rev body with b :: _ => (b =? CR) = false | [] => True end.
 
 Inductive eol_before_data : bytes -> Prop :=
 | E0_LF : eol_before_data [LF]
@@ -55,22 +57,33 @@ Proof. intros. apply find_app_eol_r; auto. Qed.
 Lemma has_prefix_self p t : has_prefix p (p ++ t) = true.
 Proof. induction p as [|x p IH]; cbn; [reflexivity|]. rewrite N.eqb_refl. exact IH. Qed.
 
-Lemma trim_len_body body : no_trailing_eol body -> trim_len body = length body.
-Proof.
-  unfold no_trailing_eol, trim_len. destruct (rev body) as [|x r] eqn:E.
-  - intros _. apply (f_equal (@length _)) in E. rewrite rev_length in E. cbn in E. congruence.
-  - unfold is_eol, LF, CR. intros H. apply orb_false_iff in H as [H1 H2]. rewrite H1, H2. reflexivity.
-Qed.
+Lemma nth_app_exact (a : bytes) x t : nth (length a) (a ++ x :: t) 0 = x.
+Proof. induction a as [|y a IH]; [reflexivity|exact IH]. Qed.
 
-Lemma trim_len_body_cr body : trim_len (body ++ [CR]) = length body.
-Proof. unfold trim_len. rewrite rev_unit, app_length. cbn. lia. Qed.
+Lemma trim_at_lf body t : match rev body with b :: _ => (b =? CR) = false | [] => True end ->
+  trim_at (body ++ LF :: t) (length body) = length body.
+Proof.
+  unfold trim_at. rewrite firstn_app_exact, nth_app_exact by reflexivity. unfold trim_len.
+  change (LF =? LF) with true. cbv iota.
+  unfold bytes, byte in *.
+  destruct body as [|x l] using rev_ind; [reflexivity|].
+  rewrite !rev_unit. intros H. rewrite H. reflexivity.
+Qed.
+Lemma trim_at_cr body t : trim_at (body ++ CR :: t) (length body) = length body.
+Proof. unfold trim_at. rewrite firstn_app_exact, nth_app_exact by reflexivity. reflexivity. Qed.
+Lemma trim_at_crlf body t : trim_at ((body ++ [CR]) ++ LF :: t) (length body + 1) = length body.
+Proof.
+  unfold trim_at. replace (length body + 1)%nat with (length (body ++ [CR])) by (rewrite app_length; reflexivity).
+  rewrite firstn_app_exact, nth_app_exact by reflexivity. unfold trim_len.
+  change (LF =? LF) with true. cbv iota. rewrite rev_unit, app_length. change (CR =? CR) with true. cbn. lia.
+Qed.
 
 Lemma drop_space_eol1 e1 t : eol_after_data e1 -> drop_space (e1 ++ kw_endstream ++ t) = kw_endstream ++ t.
 Proof. intros []; reflexivity. Qed.
 
 Lemma stream_extent_correct body e0 e1 rest declared :
   eol_before_data e0 -> eol_after_data e1 ->
-  no_trailing_eol body ->
+  no_cr_before_lf body e1 ->
   find_eol_endstream body = None ->
   (declared = None \/
    exists d, declared = Some d /\
@@ -91,27 +104,26 @@ Proof.
       if length_ok then match declared with Some d => Ok (k, Z.to_nat d) | None => Err Panic end
       else match find_eol_endstream data with
            | None => Err Malformed
-           | Some p => Ok (k, trim_len (firstn p data))
+           | Some p => Ok (k, trim_at data p)
            end)).
   { destruct H0; eexists; (split; [reflexivity|]); reflexivity. }
   destruct Hk as (k & -> & ->). cbv zeta.
   (* the recovery path gives the body *)
   assert (Hrec : match find_eol_endstream data with
                  | None => Err Malformed
-                 | Some p => Ok (length e0, trim_len (firstn p data))
+                 | Some p => Ok (length e0, trim_at data p)
                  end = Ok (length e0, length body)).
   { unfold data. destruct H1; cbn [app].
     - rewrite find_app_eol by auto. cbn [find_eol_endstream]. rewrite has_prefix_self. change (is_eol LF) with true. cbn [andb option_map].
-      rewrite Nat.add_0_r, firstn_app_exact by reflexivity. rewrite trim_len_body by exact Htr. reflexivity.
+      rewrite Nat.add_0_r. rewrite trim_at_lf by (apply Htr; reflexivity). reflexivity.
     - rewrite find_app_eol by auto. cbn [find_eol_endstream]. rewrite has_prefix_self. change (is_eol CR) with true. cbn [andb option_map].
-      rewrite Nat.add_0_r, firstn_app_exact by reflexivity. rewrite trim_len_body by exact Htr. reflexivity.
+      rewrite Nat.add_0_r. rewrite trim_at_cr. reflexivity.
     - rewrite find_app_eol by auto. cbn [find_eol_endstream]. rewrite has_prefix_self.
       change (is_eol CR) with true. change (is_eol LF) with true.
       change (has_prefix kw_endstream (LF :: kw_endstream ++ rest)) with false. cbn [andb option_map].
       replace (body ++ CR :: LF :: kw_endstream ++ rest) with ((body ++ [CR]) ++ LF :: kw_endstream ++ rest)
         by (rewrite <- app_assoc; reflexivity).
-      rewrite firstn_app_exact by (rewrite app_length; cbn; lia).
-      rewrite trim_len_body_cr. reflexivity. }
+      rewrite trim_at_crlf. reflexivity. }
   destruct Hd as [->|(d & -> & Hd)]; [exact Hrec|].
   destruct (Z.leb_spec 0 d); cbn [andb]; [|exact Hrec].
   destruct (Z.leb_spec d (Z.of_nat (length data))); [|exact Hrec].
